@@ -148,9 +148,10 @@ _RECV = ["pdus", "nest-not", "nest-seq", "tag-run", "len-run", "huge-length", "c
 
 
 def check_family(entry: str, member: t.Callable[[int], t.Any], label: str, ctx: Ctx, step: int = 2, lines: bool = False,
-                 line_sizes: t.Sequence[int] = (16, 32, 64, 128), info: t.Optional[t.Dict[str, t.Any]] = None) -> t.List[Violation]:
+                 line_sizes: t.Sequence[int] = (16, 32, 64, 128), info: t.Optional[t.Dict[str, t.Any]] = None,
+                 max_points: int = 400) -> t.List[Violation]:
     out: t.List[Violation] = []
-    r = cost.ramp(entry, member, start=4, step=step, max_len=MAX_LEN, stop_s=0.05, alarm_s=6)
+    r = cost.ramp(entry, member, start=4, step=step, max_len=MAX_LEN, stop_s=0.05, alarm_s=6, max_points=max_points)
     ctx.event(f"ramp:{r.stopped}")
     if info is not None:
         info["fails"] = any(r.raised) or r.stopped == "killed"
@@ -237,6 +238,51 @@ class ReceiveFamilies(Part):
         return check_family(case["entry"], member, f"receive:{case['builder']}", ctx, step=4, lines=True, line_sizes=sizes)
 
 
+class PumpSweep(Part):
+    """Complete enumeration: for one feature-rich sentence per entry point, EVERY position x every symbol of a small
+    class alphabet (one representative per character class the grammars distinguish, plus a few two/three character
+    fragments) x every suffix mode."""
+
+    name = "pump-sweep"
+    exhaustive = True
+    shards = {QUICK: 16, THOROUGH: 16}
+    budget = {QUICK: 300.0, THOROUGH: 900.0}
+
+    SENTENCES = [
+        ("oc", "( 1.2.3 NAME ( 'a' 'b' ) DESC 'd e' OBSOLETE SUP ( t $ u ) STRUCTURAL MUST ( x $ y ) MAY z X-AB-c 'v' X-d ( 'p' 'q' ) )"),
+        ("at", "( 1.2.3 NAME 'n' DESC 'd' SUP s EQUALITY e ORDERING o SUBSTR u SYNTAX 1.2.3{64} SINGLE-VALUE COLLECTIVE NO-USER-MODIFICATION USAGE dSAOperation X-A 'v' )"),
+        ("dcr", "( 1.2.3 NAME 'n' AUX ( a $ b ) MUST m MAY ( c $ d ) NOT n X-A 'v' )"),
+        ("filter", "(&(cn;lang-en=a\\2ab*c)(|(1.2.3:dn:2.5.13.2:=v)(!(o>=1))))"),
+    ]
+    SYMBOLS = ["1", "0", "a", "A", " ", "-", "_", ".", "'", "\\", "$", "(", ")", "{", ";", ":", "*", "=", "\\27", "1.", ".1", "a ", " a",
+               "' '", "$ a", ";a", "(!", "(&", "\\2"]
+
+    def enumerate(self, tier: str, shard: int, nshards: int) -> t.Iterable[t.Any]:
+        k = 0
+        for entry, base in self.SENTENCES:
+            for pos in range(len(base) + 1):
+                for sym in self.SYMBOLS:
+                    for suffix in _SUFFIX:
+                        if k % nshards == shard:
+                            yield {"entry": entry, "base": base, "pos": pos, "plen": 1, "sym": sym, "suffix": suffix}
+                        k += 1
+
+    def check(self, case: t.Any, ctx: Ctx) -> t.List[Violation]:
+        where = pump_context(case)
+        ctx.event(f"entry:{case['entry']}")
+        ctx.event(f"pump-in:{where}")
+        label = ("filter" if case["entry"] == "filter" else "schema") + ":" + where
+        info: t.Dict[str, t.Any] = {}
+        out = check_family(case["entry"], text_member(case), label, ctx, info=info, max_points=36)
+        if info.get("fails"):
+            ctx.event("member-fails-to-parse")
+            ctx.nontrivial((case["entry"], case["pos"], case["sym"], case["suffix"]))
+        return out
+
+    def sample(self, case: t.Any) -> t.Any:
+        return {"entry": case["entry"], "pos": case["pos"], "pump": case["sym"], "suffix": case["suffix"], "member(3)": text_member(case)(3)}
+
+
 class KnownShapes(Part):
     """A fixed list of classic blow-up shapes for every regular expression position (enumerated)."""
 
@@ -278,7 +324,8 @@ PROP = Property(
         "characters found there or 1-3 symbols harvested at run time from the parsers' own regular expressions, and the "
         "suffix keeps the rest, truncates, drops the closing parenthesis/quote or inserts a foreign character (late "
         "failure); for receive: many PDUs, deep nesting, tag/length octet runs, huge declared lengths, long control/"
-        "filter/substring lists, byte-wise delivery; plus a fixed list of 37 classic shapes. Oracle (scaling relation): "
+        "filter/substring lists, byte-wise delivery; plus a complete sweep (every position x 29 class symbols x 6 suffix "
+        "modes) over one feature-rich sentence per entry point, and a fixed list of 37 classic shapes. Oracle (scaling relation): "
         "(b) members are ramped n=4,6,8.. (<= 400 units) in a forked child killed by a CPU-time alarm; a family "
         "violates the property if CPU time at least doubled on each of the last three +2 steps ending above 50 ms AND a "
         "continuation of the ramp reaches 1 s (or the 12 s CPU kill) still within 400 units; (a) exact counts of "
@@ -286,7 +333,7 @@ PROP = Property(
         "Non-trivial = a family whose member fails to parse (late failure) - distinct by (entry, pump context, pump, "
         "suffix mode) - and all receive families / known shapes."
     ),
-    parts=[TextFamilies(), ReceiveFamilies(), KnownShapes()],
+    parts=[TextFamilies(), PumpSweep(), ReceiveFamilies(), KnownShapes()],
     assumptions=[
         "cost of degree <= 3 cannot double per +2 repetitions beyond n = 10, and a polynomial parser needs far less than 1 ms for 400 units, so the criterion has a > 1000x margin; CPU time (not wall time) is measured",
         "families with period > 8 or needing three coordinated pumps are outside the search",
